@@ -55,6 +55,56 @@ fn emit(case: &str, probe: &str, r: std::thread::Result<Vec<serde_json::Value>>)
 """
 
 
+REAL_SUPPORT = r"""
+pub mod realdev {
+    use wgpu::hal;
+    use std::num::NonZeroU64;
+    pub fn limits() -> wgpu::Limits {
+        let mut l = wgpu::Limits::default();
+        l.max_bind_groups = 8;
+        l.max_push_constant_size = 256;
+        l.max_vertex_attributes = 32;
+        l
+    }
+    /// A real wgpu::Device (full wgpu-core validation) on wgpu-hal's no-op backend.
+    pub fn noop_device(features: wgpu::Features) -> wgpu::Device {
+        unsafe {
+            let instance = wgpu::Instance::from_hal::<hal::api::Empty>(hal::empty::Context);
+            let adapter = instance.create_adapter_from_hal::<hal::api::Empty>(hal::ExposedAdapter {
+                adapter: hal::empty::Context,
+                info: wgpu::AdapterInfo { name: "noop".into(), vendor: 0, device: 0, device_type: wgpu::DeviceType::Other, driver: String::new(), driver_info: String::new(), backend: wgpu::Backend::Empty },
+                features: wgpu::Features::all(),
+                capabilities: hal::Capabilities {
+                    limits: limits(),
+                    alignments: hal::Alignments { buffer_copy_offset: NonZeroU64::new(4).unwrap(), buffer_copy_pitch: NonZeroU64::new(4).unwrap(), uniform_bounds_check_alignment: NonZeroU64::new(4).unwrap(), raw_tlas_instance_size: 64, ray_tracing_scratch_buffer_alignment: 256 },
+                    downlevel: wgpu::DownlevelCapabilities::default(),
+                },
+            });
+            let (device, _queue) = adapter
+                .create_device_from_hal::<hal::api::Empty>(hal::OpenDevice { device: hal::empty::Context, queue: hal::empty::Context },
+                    &wgpu::DeviceDescriptor { label: None, required_features: features, required_limits: limits(), memory_hints: Default::default() }, None)
+                .expect("no-op device");
+            device
+        }
+    }
+    fn block_on<F: std::future::Future>(f: F) -> F::Output {
+        let mut f = std::pin::pin!(f);
+        let waker = std::task::Waker::noop();
+        let mut cx = std::task::Context::from_waker(&waker);
+        loop {
+            if let std::task::Poll::Ready(v) = f.as_mut().poll(&mut cx) { return v; }
+        }
+    }
+    /// run `f` inside a validation error scope; None = accepted by wgpu's validation
+    pub fn scoped<R>(device: &wgpu::Device, f: impl FnOnce() -> R) -> Option<String> {
+        device.push_error_scope(wgpu::ErrorFilter::Validation);
+        let _r = f();
+        block_on(device.pop_error_scope()).map(|e| format!("{e}"))
+    }
+}
+"""
+
+
 class Module:
     def __init__(self, idx, case_id, rs, wgsl):
         self.idx = idx
@@ -77,11 +127,11 @@ class Batch:
         os.makedirs(os.path.join(self.dir, "src", "m"))
         os.makedirs(os.path.join(self.dir, "src", "p"))
         os.makedirs(os.path.join(self.dir, ".cargo"))
-        tmpl = CARGO_REAL if flavor == "real" else CARGO_SHIM
+        tmpl = CARGO_REAL if flavor in ("real", "realrun") else CARGO_SHIM
         open(os.path.join(self.dir, "Cargo.toml"), "w").write(tmpl % {"harness": HARNESS})
         shutil.copy(os.path.join(HARNESS, "Cargo.lock"), os.path.join(self.dir, "Cargo.lock"))
         open(os.path.join(self.dir, ".cargo", "config.toml"), "w").write(
-            '[net]\noffline = true\n\n[build]\ntarget-dir = "%s"\n' % os.path.join(WORK, "target-batch-" + flavor))
+            '[net]\noffline = true\n\n[build]\ntarget-dir = "%s"\n' % os.path.join(WORK, "target-batch-" + ("real" if flavor == "realrun" else flavor)))
 
     def add(self, case_id, rs, wgsl, probes=None):
         m = Module(len(self.mods), case_id, rs, wgsl)
@@ -90,7 +140,7 @@ class Batch:
         return m
 
     def _write(self):
-        main = [MAIN_HEAD]
+        main = [MAIN_HEAD + (REAL_SUPPORT if self.flavor == "realrun" else "")]
         calls = []
         for m in self.mods:
             if m.dropped:
@@ -202,9 +252,9 @@ class Batch:
         raise ToolError("batch %s did not converge" % self.tag)
 
     def run(self, timeout=600):
-        if self.flavor != "shim":
+        if self.flavor not in ("shim", "realrun"):
             return []
-        exe = os.path.join(WORK, "target-batch-shim", "debug", "batch")
+        exe = os.path.join(WORK, "target-batch-" + ("real" if self.flavor == "realrun" else "shim"), "debug", "batch")
         p = subprocess.run([exe], cwd=self.dir, stdout=subprocess.PIPE, stderr=subprocess.PIPE, text=True, errors="replace", timeout=timeout)
         if p.returncode != 0:
             log(p.stderr[-2000:])
